@@ -702,25 +702,37 @@ func rdbOracle(prefix string, scn rdbScenario, built *rdbBuilt, out *rdbOutcome)
 		}
 		return m
 	}
-	if !out.Ended {
-		return mc.Violation("replay of a valid snapshot did not finish (no target request pending, 60 virtual seconds passed)", prefix+":hang:"+shape, detail(map[string]interface{}{"leak": out.LeakCheck}))
-	}
-	if out.Err != nil {
+	// A parse error ends the run through cancellation, which races with the workers: what
+	// they had sent by then is not a function of the scenario, so judge the error first.
+	if out.Ended && out.Err != nil && strings.Contains(out.Err.Error(), "parse rdb") {
 		return mc.Violation("Send returned an error on a valid snapshot", prefix+":send-error:"+shape, detail(nil))
 	}
 	// RESTORE payloads
-	for _, r := range srv.Restores() {
+	// (with two workers the connection numbering and therefore the order of the log is
+	// not a function of the scenario: judge in key order, name the shape coarsely)
+	restores := srv.Restores()
+	sort.SliceStable(restores, func(i, j int) bool { return restores[i].Key < restores[j].Key })
+	for _, r := range restores {
 		e := built.ByKey[r.Key]
 		sh := "unknown-key"
 		if e != nil {
 			sh = rdbContainer(e)
 		}
+		if len(built.Expect) > 1 {
+			sh = "multi-key"
+		}
 		if !r.FooterOK {
-			return mc.Violation("RESTORE payload without a valid version/CRC64 footer", prefix+":restore-footer:"+sh, detail(map[string]interface{}{"key": r.Key}))
+			return mc.Violation("RESTORE payload without a valid version/CRC64 footer", prefix+":restore-footer", detail(map[string]interface{}{"key": r.Key}))
 		}
 		if e == nil || !r.Known || string(r.Body) != string(e.Body) {
 			return mc.Violation("RESTORE payload is not the value's serialization", prefix+":restore-body:"+sh, detail(map[string]interface{}{"key": r.Key, "payload_body": fmt.Sprintf("%x", rdbClip(r.Body)), "expected_body": fmt.Sprintf("%x", rdbClip(bodyOf(e)))}))
 		}
+	}
+	if !out.Ended {
+		return mc.Violation("replay of a valid snapshot did not finish (no target request pending, 60 virtual seconds passed)", prefix+":hang:"+shape, detail(map[string]interface{}{"leak": out.LeakCheck}))
+	}
+	if out.Err != nil {
+		return mc.Violation("Send returned an error on a valid snapshot", prefix+":send-error:"+shape, detail(nil))
 	}
 	// keys that must be present now
 	for _, e := range built.Expect {
@@ -794,7 +806,24 @@ func rdbOracle(prefix string, scn rdbScenario, built *rdbBuilt, out *rdbOutcome)
 			}
 		}
 	}
-	return mc.OK(mc.Hash(logStr...), touched, out.Events)
+	// observation: what the target executed, without connection numbering / global order
+	var obs []string
+	for _, r := range execLog {
+		var sb strings.Builder
+		fmt.Fprintf(&sb, "db%d", r.ExecDB)
+		for _, a := range r.Argv {
+			if len(a) > 64 {
+				fmt.Fprintf(&sb, " %q..%d/%x", a[:32], len(a), mc.Hash(string(a)))
+			} else {
+				fmt.Fprintf(&sb, " %q", a)
+			}
+		}
+		obs = append(obs, sb.String())
+	}
+	if scn.Cfg.Parallel > 1 {
+		sort.Strings(obs)
+	}
+	return mc.OK(mc.Hash(obs...), touched, out.Events)
 }
 
 func bodyOf(e *rdbExpect) []byte {
